@@ -87,6 +87,9 @@ func derived(p, svc, prod, region string, rng *rand.Rand) []string {
 		p + "\x00",
 		strings.ToUpper(p),
 		strings.ToLower(p),
+		swapCase(p),
+		strings.NewReplacer("s", "\u017f", "k", "\u212a", "K", "\u212a", "S", "\u017f").Replace(p), // simple-fold twins (long s, Kelvin sign)
+		p + "\u200b",
 		p + p,
 		p + "_" + svc + "_" + prod + "_" + svc + "_" + prod,
 		svc, prod, svc + "_" + prod,
@@ -101,9 +104,22 @@ func derived(p, svc, prod, region string, rng *rand.Rand) []string {
 	return out
 }
 
+func swapCase(p string) string {
+	b := []rune(p)
+	for i, c := range b {
+		switch {
+		case c >= 'a' && c <= 'z' && i%2 == 0:
+			b[i] = c - 32
+		case c >= 'A' && c <= 'Z' && i%2 == 1:
+			b[i] = c + 32
+		}
+	}
+	return string(b)
+}
+
 func TestC06(t *testing.T) {
 	r := ev.Start("C06", "exploration")
-	r.Rule("pairs of distinct partition ids (A,B) generated from the key-id naming scheme (B = A + _service_product[_region], prefixes, suffixes, case and unicode variants, ids embedding _IK_/_SK_, 255-byte ids, random ids; service/product with and without underscores), each executed through the real decrypt path in both directions on one factory: records produced for A are decrypted through a session for B in cold, warm and shared-IK-cache-already-holding-A's-key states, over a plain metastore, a suffix-advertising wrapper and the real DynamoDB v1/v2 metastores with region suffix over the fake. Oracle: err != nil. Empty partition id must be refused. Companion cases (same partition across region suffixes, legacy unsuffixed ids) are executed and only counted. Distinct+non-trivial: distinct (service, product, A, B, store, cache state) tuples that reached the partition guard.")
+	r.Rule("pairs of distinct partition ids (A,B) generated from the key-id naming scheme (B = A + _service_product[_region], prefixes, suffixes, case, case-fold twins and unicode variants, ids embedding _IK_/_SK_, 255-byte ids, random ids; service/product with and without underscores), each executed through the real decrypt path in both directions on one factory: records produced for A are decrypted through a session for B in cold, warm and shared-IK-cache-already-holding-A's-key states, over a plain metastore, a suffix-advertising wrapper and the real DynamoDB v1/v2 metastores with region suffix over the fake. Every foreign record is presented three times in a row (once more after one of the session's own records). Oracle: err != nil each time. Empty partition id must be refused. Companion cases (same partition across region suffixes, legacy unsuffixed ids) are executed and only counted. Distinct+non-trivial: distinct (service, product, A, B, store, cache state) tuples that reached the partition guard.")
 	r.Assume("region suffixes are AWS region names (no underscores)")
 	nBase := ev.Pick(14, 400)
 	rng := rand.New(rand.NewSource(ev.Seed()))
@@ -112,7 +128,7 @@ func TestC06(t *testing.T) {
 	defer static.Close()
 
 	svcs := [][2]string{{"svc", "prod"}, {"s", "s"}, {"my_service", "my_product"}, {"a", "b_c"}}
-	bases := []string{"a", "user_42", "p", "tenant-7", "üñí", "A_B_C", strings.Repeat("x", 255), "_IK_a", "a_svc_prod", "s", "42", "a_s"}
+	bases := []string{"a", "user_42", "p", "tenant-7", "aB3xK9q", "sks", "üñí", "A_B_C", strings.Repeat("x", 255), "_IK_a", "a_svc_prod", "s", "42", "a_s"}
 	for len(bases) < nBase {
 		n := 1 + rng.Intn(12)
 		b := make([]byte, n)
@@ -200,8 +216,23 @@ func TestC06(t *testing.T) {
 						}
 						sb = get(b)
 					}
-					out, err := sb.Decrypt(ctx, *world.CopyDRR(ma.drr))
-					r.Eval(1)
+					// the same foreign record is presented three times (a caller retrying a failed load), with one of
+					// the session's own records decrypted before the last attempt: the verdict must not depend on
+					// what the session was asked before
+					var out []byte
+					var err error
+					for attempt := 0; attempt < 3; attempt++ {
+						if attempt == 2 {
+							if mb, ok := recs[b]; ok {
+								sb.Decrypt(ctx, *world.CopyDRR(mb.drr))
+							}
+						}
+						out, err = sb.Decrypt(ctx, *world.CopyDRR(ma.drr))
+						r.Eval(1)
+						if err == nil {
+							break
+						}
+					}
 					r.Distinct(fmt.Sprintf("%s|%s|%s|%q|%q|%d|%s", sk.name, svc, prod, a, b, ci, state))
 					if err == nil {
 						sig := "c06-foreign-decrypt"
